@@ -263,7 +263,33 @@ def check_get_cookie(P, R):
         R.ob('C15.e', f, c, ok, text=f'decoded text = self.cookies.get({key_p})', detail='' if ok else 'the text decoded is not the cookie of the requested name')
         ok = isinstance(a1, ast.Name) and a1.id == secret_p
         R.ob('C15.e', f, c, ok, text='secret forwarded', detail='' if ok else 'the secret of this call is not the one used for verification')
+    # the signed branch is taken whenever a secret is given and the cookie exists - not only when the text "looks signed"
+    for c in calls:
+        t = enclosing(c, ast.If)
+        ok, det = False, 'cookie_decode is not called under `if secret and value`'
+        if t is not None:
+            conj = bool_operands(t.test, ast.And)
+            names_ = [x.id for x in conj if isinstance(x, ast.Name)]
+            extra = [x for x in conj if not isinstance(x, ast.Name)]
+            ok = secret_p in names_ and not extra
+            det = '' if ok else (f'the signed branch is additionally conditioned on `{short(extra[0])}`: with a secret given, a cookie whose framing was damaged '
+                                 f'(leading "!" or "?" altered / truncated) falls through to the plain-cookie exit and is returned as text instead of reading as absent')
+        R.ob('C15.e', f, t.test if t is not None else c, ok, text='signed branch taken for every cookie when a secret is given', detail=det,
+             why='a signed cookie altered in any byte reads as absent', key_extra='branch-cond')
     # returns
+    plain_rets = []
+    for r in [n for n in walk_shallow(f.node) if isinstance(n, ast.Return) and n.value is not None]:
+        # the verified value must be returned as it is: no `or default` truthiness on it
+        rn0 = g.node_of_stmt(r)[0]
+        if isinstance(r.value, ast.BoolOp):
+            for x in r.value.values:
+                if isinstance(x, ast.Name):
+                    for d in rd.at(rn0, x.id):
+                        if d.value is not None and any(isinstance(y, ast.Subscript) and isinstance(y.value, ast.Name) and any(
+                                dd.value in calls for dd in rd.at(d.node, y.value.id)) for y in ast.walk(d.value)):
+                            R.ob('C15.e', f, r, False, detail=
+                                 f'the verified, unpickled value flows into `{short(r.value)}`: a validly signed falsy value (0, "", [], False, {{}}) reads as the default instead of unchanged',
+                                 why='a cookie set with a secret is read back unchanged', key_extra='truthiness-on-verified')
     for r in [n for n in walk_shallow(f.node) if isinstance(n, ast.Return) and n.value is not None]:
         rn = g.node_of_stmt(r)[0]
         v = r.value
